@@ -695,7 +695,7 @@ def write_pdf(matrix, matrix_size, out, scale=1, border=None, dark='#000',
         write(graphic)
         write(b'\r\nendstream\r\nendobj\r\n')
         object_pos.append(f.tell())
-        writestr('{0} 0 obj <</CreationDate(D:{1})/Producer({2})/Creator({2})\r\n>>\r\nendofbj\r\n'
+        writestr('{0} 0 obj <</CreationDate(D:{1})/Producer({2})/Creator({2})\r\n>>\r\nendobj\r\n'
                  .format(len(object_pos), creation_date, CREATOR))
         object_pos.append(f.tell())
         xref_location = f.tell()
